@@ -264,7 +264,9 @@ def generic_check(prop, tier, seed, cfg, replay=None):
 
     # 2. Coq cone + audit
     proof_broken = []
-    ok, log = coq_build([cfg.PROPS_VO] + getattr(cfg, "EXTRA_VO", []))
+    coq_makefile()
+    ext_deps = [str(f.relative_to(COQ)) + "o" for f in cone([f"Extract/Extract{prop}.v"]) if f.parent.name != "Extract"]
+    ok, log = coq_build([cfg.PROPS_VO] + getattr(cfg, "EXTRA_VO", []) + ext_deps)
     if not ok:
         m = re.findall(r'File "\./([^"]+)", line (\d+)', log)
         where = f"{m[-1][0]}:{m[-1][1]}" if m else "unknown"
